@@ -1,10 +1,14 @@
 #!/usr/bin/env python3
 """Copies confirmed seeded changes from /tmp/mut/out_* into /verif/seeded/<id>/ with meta.json (run after seed_eval.sh)."""
 import json, os, re, shutil, sys
-ids = sys.argv[1:]
+args = sys.argv[1:]
+rnd = ""
+if args and args[0] == "--round":
+    rnd = args[1]; args = args[2:]
+ids = args
 for pid in ids:
-    out = "/tmp/mut/out_%s" % pid
-    log = "/tmp/mut/eval_%s.log" % pid
+    out = "/tmp/mut/out%s_%s" % (rnd if rnd != "1" else "", pid)
+    log = "/tmp/mut/eval%s_%s.log" % (rnd if rnd != "1" else "", pid)
     if not os.path.exists(out) or not os.path.exists(log):
         print("skip", pid); continue
     L = open(log).read()
@@ -14,7 +18,7 @@ for pid in ids:
     sigs = re.findall(r"^  signature: (.*)$", L, re.M)
     rc = re.findall(r"check rc=(\d+)", L)
     detected = bool(rc) and rc[-1] == "1"
-    dst = "/verif/seeded/%s" % pid
+    dst = "/verif/seeded/%s%s" % (pid, "-r" + rnd if rnd not in ("", "1") else "")
     if os.path.exists(dst):
         shutil.rmtree(dst)
     os.makedirs(dst)
@@ -35,6 +39,7 @@ for pid in ids:
     notes = open(os.path.join(out, "notes.md")).read() if os.path.exists(os.path.join(out, "notes.md")) else ""
     meta = {
         "property": pid,
+        "round": int(rnd or 1),
         "origin": "independent sub-agent given only the property text and a scratch worktree",
         "demo_location_in_repo": open(os.path.join(out, "demo_path.txt")).read().strip() if os.path.exists(os.path.join(out, "demo_path.txt")) else ".",
         "confirmed_by_me": {"applies_and_builds": True, "baseline_48_of_48": baseline, "demo_passes_without_change": before_ok, "demo_fails_with_change": after_fails,
